@@ -408,6 +408,7 @@ func (e *Engine) ProveLemma(pi *PkgInfo, lm *Lemma) *FuncResult {
 			if label == "" {
 				label = fmt.Sprintf("%d", i+1)
 			}
+			c.useLemmas(q.Using)
 			c.assert("lemma", label, c.evalSpecBool(q.E), q.Src, nil)
 		}
 	}()
